@@ -40,7 +40,7 @@ ASSUMPTIONS = [
     "reference PyTree model vf/models/pytree.py (cross-checked against jax.tree_util inside C09's run)",
 ]
 
-LEAF_KINDS = ["array", "union-arr", "int", "tuple-arr", "nt-arr", "pair", "pair-any", "array", "union", "union-bar", "str", "any", "array", "union-arr-bar"]
+LEAF_KINDS = ["array", "union-arr", "int", "tuple-arr", "nt-arr", "pair", "pair-any", "array", "union", "union-bar", "str", "any", "array", "union-arr-bar", "pair-none"]
 ARRAYISH = ("array", "union-arr", "tuple-arr", "union-arr-bar", "nt-arr")
 _PAIR_CLS = {}
 
@@ -54,6 +54,8 @@ def leaf_type(lk, spec):
         return tuple[int, int]
     if lk == "pair-any":
         return tuple[int, Any]  # second slot unconstrained
+    if lk == "pair-none":
+        return tuple[int, None]  # PEP 585 generic with a bare None argument: the second slot must be None
     if lk == "union":
         return Union[int, str]
     if lk == "union-bar":
@@ -86,6 +88,11 @@ def is_pair_any(d):
     return d[0] == "tuple" and len(d[1]) == 2 and d[1][0][0] == "leaf" and d[1][0][1][0] == "i" and d[1][1][0] == "leaf"
 
 
+def is_pair_none(d):
+    """(int, None)"""
+    return d[0] == "tuple" and len(d[1]) == 2 and d[1][0][0] == "leaf" and d[1][0][1][0] in ("i", "b") and d[1][1][0] == "none"
+
+
 def is_arr_int(d):
     return d[0] == "tuple" and len(d[1]) == 2 and d[1][0][0] == "leaf" and d[1][0][1][0] == "a" and d[1][1][0] == "leaf" and d[1][1][1][0] == "i"
 
@@ -97,6 +104,8 @@ def matches_flat(d, lk):
         return is_pair(d)
     if lk == "pair-any":
         return is_pair_any(d)
+    if lk == "pair-none":
+        return is_pair_none(d)
     if lk == "tuple-arr":
         return is_arr_int(d)
     if lk == "union-arr":
@@ -207,6 +216,8 @@ def expand_pairs(d):
     if k == "leaf":
         if d[1][0] == "pair":
             return ("tuple", [("leaf", ("i", d[1][1])), ("leaf", ("i", d[1][1] + 1))])
+        if d[1][0] == "pairnone":
+            return ("tuple", [("leaf", ("i", d[1][1])), ("none",)])
         if d[1][0] == "pairany":
             return ("tuple", [("leaf", ("i", d[1][1])), ("leaf", d[1][2])])
         if d[1][0] == "arrint":
@@ -296,7 +307,7 @@ def check_case(ctx, case):
         if got == dl.TRUE and obs.verdict(real, PyTree[L]) != dl.TRUE:
             raise Violation("idempotence", case, f"second identical check failed; {descr}")
     dl_ = depths_of_leaves(desc)
-    subtree_leaf = lk in ("pair", "pair-any", "tuple-arr", "nt-arr") and "pair-subtree" in case.get("flags", [])
+    subtree_leaf = lk in ("pair", "pair-any", "pair-none", "tuple-arr", "nt-arr") and "pair-subtree" in case.get("flags", [])
     nontrivial = len(dl_) >= 3 and len(set(dl_)) >= 2 and (subtree_leaf or has_empty(desc) or info.get("used_binding", False))
     ctx.note([lk, spec, case["tree"], case["prior"]], nontrivial,
              classes=([f"newtype-{lk}"] if case.get("newtype") else []) + (["array-class-is-a-pytree-node"] if boxed else []) + [f"leaf-{lk}", f"got-{got}", f"nleaves-{min(len(dl_), 6)}"] + (["has-empty-or-none"] if has_empty(desc) else [])
@@ -317,7 +328,7 @@ def c08_case(draw):
         if o.ctx is not None and o.allowed == {dl.TRUE}:
             m = o.ctx
         case["prior"].append([[c01.tok_json(t) for t in ptoks], list(shape)])
-    allow = ("tuple", "list", "dict", "none", "nt", "custom") if lk not in ("pair", "pair-any", "tuple-arr", "nt-arr") else ("tuple", "list", "dict", "none", "custom")
+    allow = ("tuple", "list", "dict", "none", "nt", "custom") if lk not in ("pair", "pair-any", "pair-none", "tuple-arr", "nt-arr") else (("tuple", "list", "dict", "none", "custom") if lk != "pair-none" else ("tuple", "list", "dict", "custom"))
     shape_desc = draw(gt.tree_desc(st.just(0), max_depth=4, max_leaves=12, allow=allow))
     nl = len(pt.leaves(shape_desc))
     payloads = []
@@ -372,6 +383,14 @@ def c08_case(draw):
                     case["flags"] = ["pair-subtree"]
                 else:
                     payloads.append(("s", draw(strs)))
+            elif lk == "pair-none":
+                r = draw(st.integers(0, 9))
+                if r <= 6:
+                    payloads.append(("pairnone", draw(ints)))
+                    case["flags"] = ["pair-subtree"]
+                else:
+                    # (int, <not None>), a lone int, a str: none of them is an (int, None) pair
+                    payloads.append(draw(st.sampled_from([("pairany", draw(ints), ("s", "t")), ("pairany", draw(ints), ("i", 5)), ("i", draw(ints)), ("s", "x")])))
             elif lk == "pair":
                 r = draw(st.integers(0, 9))
                 if r <= 6:
